@@ -181,6 +181,12 @@ def gen_cases(tier, seed, shapes=None, per_shape=None):
             ls = lens if k % 8 else [100, 257, 1000]
             cases.append(gen_case(r, cid, src, ch, ls))
             cid += 1
+        # astronomically large exact chunk sizes on sources of known length (the shared position must not wrap)
+        if gen_harness.SOURCES[src][2] and len(ch) <= 1 and src not in gen_harness.PRE_SOURCES:
+            for term in ["cv", "cx", "cnt", "red"]:
+                for big in [2 ** 62, 2 ** 63, 2 ** 64 - 1]:
+                    cases.append(corner_case(r, cid, src, ch, term, 4, ("C", big), 24, "alt"))
+                    cid += 1
         if not ch:
             continue
         # corner grid
@@ -238,17 +244,80 @@ def run_bin(path, args, lines, timeout=3000):
     return p.returncode, p.stdout.split("\n")[:-1], p.stderr
 
 
+def run_watched(path, args, lines, case_timeout=90, max_hangs=3):
+    """runs the harness on the case lines, one result line per case, watching progress: a case that
+    prints nothing for [case_timeout] seconds is recorded as <timeout>, the process is killed and
+    the rest continues in a new process; after [max_hangs] such cases the rest is <skipped>"""
+    import queue
+    import threading
+    out = []
+    i = 0
+    hangs = 0
+    err = ""
+    while i < len(lines):
+        p = subprocess.Popen([path] + list(args), stdin=subprocess.PIPE, stdout=subprocess.PIPE, stderr=subprocess.PIPE,
+                             text=True, errors="replace", env=ENV)
+        q = queue.Queue()
+        rest = lines[i:]
+
+        def feed(proc=p, data="\n".join(rest) + "\n"):
+            try:
+                proc.stdin.write(data)
+                proc.stdin.close()
+            except (BrokenPipeError, ValueError, OSError):
+                pass
+
+        def read(proc=p, qq=q):
+            for ln in proc.stdout:
+                qq.put(ln.rstrip("\n"))
+            qq.put(None)
+
+        def read_err(proc=p):
+            try:
+                proc.stderr.read()
+            except (ValueError, OSError):
+                pass
+        for fn in (feed, read, read_err):
+            threading.Thread(target=fn, daemon=True).start()
+        while True:
+            try:
+                item = q.get(timeout=case_timeout)
+            except queue.Empty:
+                p.kill()
+                out.append("<timeout>")
+                i += 1
+                hangs += 1
+                break
+            if item is None:
+                rc = p.wait()
+                if i < len(lines) and len(out) < len(lines):
+                    if rc != 0 or len(out) < i + 1:
+                        # the process ended before printing this case's line
+                        if len(out) == i:
+                            out.append("<crash rc=%s>" % rc)
+                            i += 1
+                            err += "harness ended with rc=%s at case %s\n" % (rc, lines[i - 1][:120])
+                break
+            out.append(item)
+            i += 1
+        if hangs >= max_hangs and i < len(lines):
+            out += ["<skipped>"] * (len(lines) - i)
+            break
+    return (0 if not err else 1), out[:len(lines)], err
+
+
 def parallel_run(path, args, lines, shards=8):
     """runs the binary on shards of the case list side by side"""
     import concurrent.futures
     n = len(lines)
     if n == 0:
         return 0, [], ""
+    runner = run_bin if path == DRIVER else run_watched
     size = (n + shards - 1) // shards
     chunks = [lines[i:i + size] for i in range(0, n, size)]
     outs = [None] * len(chunks)
     with concurrent.futures.ThreadPoolExecutor(max_workers=shards) as ex:
-        futs = {ex.submit(run_bin, path, args, ch): i for i, ch in enumerate(chunks)}
+        futs = {ex.submit(runner, path, args, ch): i for i, ch in enumerate(chunks)}
         for fu in concurrent.futures.as_completed(futs):
             outs[futs[fu]] = fu.result()
     rc = max(o[0] for o in outs)
@@ -343,6 +412,8 @@ def analyse(cases, impl, model, full, survivors=None):
         n_in = 0 if cf["in"] == "-" else len(cf["in"].split(","))
         out["dist"]["len_" + ("0" if n_in == 0 else "1-8" if n_in <= 8 else "9-64" if n_in <= 64 else ">64")] += 1
         out["dist"]["mode_" + ("seq" if nt2 == 1 else "par")] += 1
+        if a == "<skipped>":
+            continue
         if "res" not in af or "res" not in mf:
             mism("run", c, a[:300], m[:300])
             continue
